@@ -26,9 +26,12 @@ PROPERTY = "C05"
 LEVEL = "exploration"
 RULE = (
     "case kinds: dict = a random rules dictionary (3-8 labels, <=4 rules per label, arity 0-3) given "
-    "to prune / iterative_prune / the seven proof-tree finders; table = a random integer universe "
+    "to prune / iterative_prune / the seven proof-tree finders (dicts = the small-scope exhaustive "
+    "layer: every dictionary over two labels with <= 3 rules of arity <= 2 per label and both roots; "
+    "thorough: also every dictionary over three labels with <= 2 rules per label); table = a random integer universe "
     "wrapped as strategies and searched with the real searcher + default or memory-saving rule "
-    "database, has_specification polled after every work packet; words = a real word-universe "
+    "database (with twin single-child rows and overlapping one-way cycles), has_specification polled "
+    "after every k-th work packet (k = 1, 2, 3, 5 or only at the end); words = a real word-universe "
     "search (symmetries, inferral, iterative) with every has_specification call judged. "
     "non-trivial = dict: a root tree exists and >= 2 finders returned trees with > 3 nodes; "
     "table/words: the reference answered both False and True during the run, or the start label is "
@@ -49,10 +52,12 @@ FLOORS = {
                                                "ruledb.has_spec_compared_true": 300,
                                                "ruledb.has_spec_compared_iterative": 200,
                                                "ruledb.smallest_compared": 100,
-                                               "c05.smallest_direct_compared": 200}},
+                                               "c05.smallest_direct_compared": 200,
+                                               "c05.exhaustive_dictionaries": 3528}},
     "thorough": {"nontrivial": 6000, "counters": {"c05.trees_checked": 100000, "ruledb.has_spec_compared": 80000,
                                                    "ruledb.has_spec_compared_iterative": 4000,
-                                                   "ruledb.smallest_compared": 2000}},
+                                                   "ruledb.smallest_compared": 2000,
+                                                   "c05.exhaustive_dictionaries": 170000}},
 }
 # W5: the repository's own test suite runs once under these ambient monitors (thorough tier)
 W5_MONITORS = ['ruledb']
@@ -78,8 +83,33 @@ def _rand_dict(rng):
     return {"n": n, "rules": {str(k): [list(r) for r in v] for k, v in rd.items()}, "root": rng.randrange(n)}
 
 
+def gen_exhaustive_dicts(labels, max_rules, block=250):
+    """Every rules dictionary over `labels` labels whose rules have arity <= 2, at most
+    `max_rules` rules per label (root 0; two labels: both roots), in blocks."""
+    import itertools
+
+    rules = [()] + [(a,) for a in range(labels)] + \
+            [(a, b) for a in range(labels) for b in range(a, labels)]
+    per_label = [c for r in range(max_rules + 1) for c in itertools.combinations(rules, r)]
+    cur, k = [], 0
+    for choice in itertools.product(per_label, repeat=labels):
+        d = {str(l): [list(r) for r in rs] for l, rs in enumerate(choice) if rs}
+        for root in (range(labels) if labels == 2 else (0,)):
+            cur.append({"n": labels, "rules": d, "root": root})
+            if len(cur) == block:
+                yield {"id": f"x{labels}.{k}", "kind": "dicts", "dicts": cur, "rng_seed": k}
+                cur, k = [], k + 1
+    if cur:
+        yield {"id": f"x{labels}.{k}", "kind": "dicts", "dicts": cur, "rng_seed": k}
+
+
 def gen_cases(tier, seed):
     nd, nt, nw = SIZES[tier]
+    # small-scope exhaustive layer: all dictionaries over two labels (<= 3 rules per label);
+    # thorough: also all over three labels with <= 2 rules per label
+    yield from gen_exhaustive_dicts(2, 3)
+    if tier == "thorough":
+        yield from gen_exhaustive_dicts(3, 2)
     k = 0
     for i in range(nd):
         rng = intuniv.rng_for(seed, "C05d", i)
@@ -327,8 +357,17 @@ def run_words(case):
     return {"nontrivial": answers == {False, True} or root_in_bigger, "fingerprint": fp(case)}
 
 
+def run_dicts(case):
+    nt = False
+    for j, d in enumerate(case["dicts"]):
+        r = run_dict({"id": f"{case['id']}/{j}", "kind": "dict", "dict": d, "rng_seed": case["rng_seed"] * 1000 + j})
+        nt = nt or r["nontrivial"]
+        base.ctx().count("c05.exhaustive_dictionaries")
+    return {"nontrivial": nt, "fingerprint": fp(case["id"])}
+
+
 def run_case(case):
-    return {"dict": run_dict, "table": run_table, "words": run_words}[case["kind"]](case)
+    return {"dict": run_dict, "dicts": run_dicts, "table": run_table, "words": run_words}[case["kind"]](case)
 
 
 def classify(v):
